@@ -12,11 +12,14 @@ Ltac brk :=
 Lemma cfg_text_changed s : cfg (text_changed s) = cfg s.
 Proof. unfold text_changed. brk. Qed.
 
+Lemma cfg_cursor_changed s : cfg (cursor_changed s) = cfg s.
+Proof. unfold cursor_changed. destruct (vst s =? 1); reflexivity. Qed.
+
 Lemma cfg_set_document s d : cfg (set_document s d) = cfg s.
 Proof.
-  unfold set_document, cursor_changed.
-  destruct (negb (str_eqb (dtext d) (text s))); destruct (negb (Z.max 0 (dcur d) =? cur s)); simp;
-    rewrite ?cfg_text_changed; reflexivity.
+  unfold set_document.
+  destruct (negb (str_eqb (dtext d) (text s))); destruct (negb (Z.max 0 (dcur d) =? cur s));
+    rewrite ?cfg_cursor_changed, ?cfg_text_changed; reflexivity.
 Qed.
 
 Lemma cfg_insert_text s d s' e : insert_text s d = (s', e) -> cfg s' = cfg s.
@@ -36,7 +39,10 @@ Proof.
 Qed.
 
 Lemma cfg_move_cursor s p : cfg (move_cursor s p) = cfg s.
-Proof. unfold move_cursor, cursor_changed. brk. Qed.
+Proof.
+  unfold move_cursor. match goal with |- context [if ?c then s else _] => destruct c end; [reflexivity|].
+  rewrite cfg_cursor_changed. reflexivity.
+Qed.
 
 Lemma cfg_set_text s v : cfg (set_text s v) = cfg s.
 Proof.
@@ -47,7 +53,7 @@ Qed.
 Lemma cfg_validate_sync s ok epos sc : cfg (validate_sync s ok epos sc) = cfg s.
 Proof.
   unfold validate_sync. destruct (vst s =? 0); [|reflexivity].
-  destruct (vwt (cfg s) && negb ok); [|reflexivity]. destruct sc; simp; rewrite ?cfg_move_cursor; reflexivity.
+  destruct (hval (cfg s) && negb ok); [|reflexivity]. destruct sc; simp; rewrite ?cfg_move_cursor; reflexivity.
 Qed.
 
 Lemma cfg_gtc s i s' e : go_to_completion s i = (s', e) -> cfg s' = cfg s.
